@@ -55,6 +55,8 @@ def _all_cases(C, tier, seed):
         out.append(('decls', 'C10 range declared-functions-scanned:%d | 1' % res['declared']))
     except Exception as e:   # clang missing / AST not parseable: the tie is broken, say so
         out.append(('decls', 'C10 inst decl-scan-failed:%s | 1' % type(e).__name__))
+    if os.environ.get('C10_ONLY_OWN'):      # mutation trials (tools/dev/mutations_c10.py): own harness, units and declaration scan only
+        return out
     # public-API coverage (tools/api_coverage.py): every public function declared under include/AIToolbox (clang AST; class templates
     # through their members) must be referenced by some harness object (nm of harness/c*.cpp compiled -O0) or be accounted for, with a
     # reason, in tools/props/c10_api_accounted.py; a function defined in a header without `inline` breaks every two-unit program
